@@ -328,9 +328,15 @@ func (s *Schema) Resolve(tr TypeRef) (Atom, bool) {
 			// Allow field-level electives to override the referred type's modifiers
 			switch {
 			case result.Map != nil:
-				mapCopy := Map{}
-				result.Map.CopyInto(&mapCopy)
-				mapCopy.ElementRelationship = *tr.ElementRelationship
+				// Do not use CopyInto here: it reads the field index of the
+				// referred type, which another goroutine may be building in
+				// FindField at this very moment. The copy builds its own index.
+				mapCopy := Map{
+					Fields:              result.Map.Fields,
+					Unions:              result.Map.Unions,
+					ElementType:         result.Map.ElementType,
+					ElementRelationship: *tr.ElementRelationship,
+				}
 				result.Map = &mapCopy
 			case result.List != nil:
 				listCopy := *result.List
